@@ -57,7 +57,7 @@ func CalleeName(info *types.Info, call *ast.CallExpr) string {
 		if sel, ok := info.Selections[x]; ok {
 			obj = sel.Obj()
 			if v, ok := obj.(*types.Var); ok && v.IsField() {
-				return "field:" + Short(typeName(sel.Recv())) + "." + v.Name()
+				return "field:" + canonField(Short(typeName(sel.Recv()))+"."+v.Name())
 			}
 		} else {
 			obj = info.Uses[x.Sel]
@@ -65,11 +65,11 @@ func CalleeName(info *types.Info, call *ast.CallExpr) string {
 	}
 	switch o := obj.(type) {
 	case *types.Func:
-		return Short(o.Origin().FullName())
+		return canonFunc(Short(o.Origin().FullName()))
 	case *types.Builtin:
 		return "builtin." + o.Name()
 	case *types.Var:
-		return "var:" + o.Name()
+		return "var:" + VarName(o)
 	}
 	return "?"
 }
@@ -275,11 +275,11 @@ func FieldName(info *types.Info, x *ast.SelectorExpr) string {
 			break
 		}
 		if i == len(idx)-1 {
-			return Short(typeName(t)) + "." + v.Name()
+			return canonField(Short(typeName(t)) + "." + v.Name())
 		}
 		t = st.Field(k).Type()
 	}
-	return Short(typeName(sel.Recv())) + "." + v.Name()
+	return canonField(Short(typeName(sel.Recv())) + "." + v.Name())
 }
 
 func structOf(t types.Type) *types.Struct {
